@@ -116,11 +116,11 @@ def _ind(eff):
 
 
 def _inline_break(v, fam, eff):
-    if isinstance(v, bool) or not isinstance(v, int) or 'b' not in (eff('inlineElements') or []):
+    if isinstance(v, bool) or not isinstance(v, int) or 'zzi' not in (eff('inlineElements') or []):
         return None
     if 0 < v <= 2:
-        return [], ['<b></b><b></b>']
-    return ['<zze><b></b><b></b></zze>'], []
+        return [], ['<zzi></zzi><zzi></zzi>']
+    return ['<zze><zzi></zzi><zzi></zzi></zze>'], []
 
 
 def _attr_name(v, fam, eff):
@@ -157,7 +157,7 @@ BOTH = ('html', 'indent')
 MARKUP_EFFECTS = [
     Effect('markup', 'jsx.enabled', 'Foo.Bar', [False, True],
            _bool(['<Foo.Bar'], ['<Foo '], ['<Foo '], ['Foo.Bar'])),
-    Effect('markup', 'jsx.enabled', 'div.{theme}', [True, False],
+    Effect('markup', 'jsx.enabled', 'zze.{theme}', [True, False],
            _bool(['={theme}'], ['>theme<'], ['>theme<'], ['{theme}'])),
     Effect('markup', 'output.selfClosingStyle', 'zze/', ['html', 'xml', 'xhtml'],
            _enum({'html': '<zze>', 'xml': '<zze/>', 'xhtml': '<zze />'})),
@@ -180,8 +180,8 @@ MARKUP_EFFECTS = [
            (([_nl(eff) + '<zzf>'], [_ind(eff) + '<zzf>']) if 'zze' in v else ([_nl(eff) + _ind(eff) + '<zzf>'], []))),
     Effect('markup', 'output.formatForce', 'zze>zzf', [[], ['zzf']],
            _has('zzf', [], ['<zzf></zzf>'], ['<zzf></zzf>'], [])),
-    Effect('markup', 'output.inlineBreak', 'zze>b*2', [0, 2, 3], _inline_break),
-    Effect('markup', 'inlineElements', 'zze>zzi', [[], ['zzi', 'b']],
+    Effect('markup', 'output.inlineBreak', 'zze>zzi*2', [0, 2, 3], _inline_break, comp={'options': {'inlineElements': ['zzi']}}),
+    Effect('markup', 'inlineElements', 'zze>zzi', [[], ['zzi', 'zzj']],
            _has('zzi', ['<zze><zzi></zzi></zze>'], [], [], ['<zze><zzi>'])),
     Effect('markup', 'output.reverseAttributes', 'zzr[kb=vb]', [False, True],
            _bool(['kb="vb" ka="va"'], [], ['ka="va" kb="vb"'], []), comp=MARKUP_COMP),
